@@ -115,6 +115,25 @@ pub fn sequences(r: &mut Rep, port: u16, step: bool) {
     seq!(u32, 32, 0xffff_ffff);
 }
 
+/// accesses through clones (clone / clone_from) go to the source's port
+fn clone_access(r: &mut Rep) {
+    for (a, b) in [(0x3f8u16, 0x2f8u16), (0, 0xffff), (0x80, 0x81), (0xcf8, 0xcfc), (0x1234, 0x1234)] {
+        let mut p = Port::<u8>::new(a);
+        p.clone_from(&Port::<u8>::new(b));
+        let mut q = Port::<u32>::new(b).clone();
+        cpu().port_in = 0x55;
+        let (_, ev) = one(false, || unsafe {
+            p.write(0x11);
+            q.write(0x2222_3333);
+            p.read()
+        });
+        r.ev(true);
+        if ev != [Ev::Out(b, 8, 0x11), Ev::Out(b, 32, 0x2222_3333), Ev::In(b, 8, 0x55)] {
+            r.viol("C18|Clone|access-through-a-clone-does-not-go-to-the-source's-port", &format!("portcloneaccess {} {}", a, b), &format!("{:x?}", ev));
+        }
+    }
+}
+
 fn eq_clone(r: &mut Rep) {
     let mut set: Vec<u16> = vec![0, 1, 0xff, 0x100, 0x3f8, 0xcf8, 0xcfc, 0x7fff, 0x8000, 0xfffe, 0xffff];
     for b in 0..16 {
@@ -134,7 +153,19 @@ fn eq_clone(r: &mut Rep) {
             let e3 = PortWriteOnly::<u32>::new(a) == PortWriteOnly::<u32>::new(b);
             let c: PortGeneric<u32, ReadWriteAccess> = Port::<u32>::new(a).clone();
             let e4 = c == Port::<u32>::new(b);
-            if e1 != (a == b) || e2 != (a == b) || e3 != (a == b) || e4 != (a == b) {
+            // clone_from must re-target the object: afterwards it is equal to (and refers to the port of) its source
+            let mut d = Port::<u16>::new(a);
+            d.clone_from(&Port::<u16>::new(b));
+            let mut d8 = PortWriteOnly::<u8>::new(a);
+            d8.clone_from(&PortWriteOnly::<u8>::new(b));
+            if d != Port::<u16>::new(b) || d8 != PortWriteOnly::<u8>::new(b) || format!("{:?}", d) != format!("{:?}", Port::<u16>::new(b)) {
+                r.viol("C18|Clone::clone_from|clone-does-not-refer-to-the-port-of-its-source", &format!("portclonefrom {} {}", a, b), &format!("{:?}", d));
+            }
+            // `!=` (PartialEq::ne) must be the negation of `==`
+            let n1 = Port::<u8>::new(a) != Port::<u8>::new(b);
+            let n2 = PortReadOnly::<u16>::new(a) != PortReadOnly::<u16>::new(b);
+            let n3 = PortWriteOnly::<u32>::new(a) != PortWriteOnly::<u32>::new(b);
+            if e1 != (a == b) || e2 != (a == b) || e3 != (a == b) || e4 != (a == b) || n1 == e1 || n2 == e2 || n3 == e3 {
                 r.viol("C18|PartialEq/Clone|not-equal-exactly-when-port-numbers-are-equal", &format!("porteq {} {}", a, b), "");
             }
         }
@@ -185,7 +216,8 @@ pub fn run(a: &Args) {
         }
     }
     if a.shard == 0 {
-        eq_clone(&mut r);
+        guarded(&mut r, "C18|PartialEq/Clone|unexpected-panic", || "porteq".into(), |r| eq_clone(r));
+        guarded(&mut r, "C18|Clone|unexpected-panic", || "portcloneaccess".into(), |r| clone_access(r));
     }
     r.states = r.evals;
     r.exhaustive = true;
